@@ -73,6 +73,12 @@ def tt_round(E, s):
         xc = list(x.cores)
     elif s.get('prelude') == 'round':
         x.round(E.pos_scalar('eps0', hi=1))
+    elif s.get('prelude') == 'round_chain':
+        # the operand is itself the outcome of a rounding (eps0 = 0: nothing is cut, the object keeps its value): what is asked of the
+        # second rounding (rank caps, accuracy) is asked relative to that object
+        x = x.round(0.0) if s.get('eps0') == 'zero' else x.round(E.pos_scalar('eps0', hi=1))
+        xc = list(x.cores)
+        R = [int(r) for r in x.R]
     if s.get('eps') == 'default':
         eps = None
     elif s.get('eps') == 'zero':
@@ -106,10 +112,11 @@ def tt_round(E, s):
     E.true('boundary_ranks', Ry[0] == 1 and Ry[-1] == 1 and len(Ry) == d + 1)
     E.true('cores_match_ranks', all(list(c.shape)[0] == Ry[k] and list(c.shape)[-1] == Ry[k + 1] for k, c in enumerate(y.cores)))
     modes = list(N) if M is None else [m * n for m, n in zip(M, N)]
-    dp = dense_pattern(N, R, s['patterns'], M) if not s.get('general') else None
+    chain = s.get('prelude') == 'round_chain'
+    dp = dense_pattern(N, R, s['patterns'], M) if not (s.get('general') or chain) else None
     for k in range(1, d):
         E.true('rank_not_raised_%d' % k, Ry[k] <= R[k])
-        if eps is None or eps != 0.0:
+        if (eps is None or eps != 0.0) and not chain:
             ur = unfolding_generic_rank(modes, dp, k) if dp is not None else 1
             if eps is None:
                 E.true('rank_le_unfolding_%d' % k, Ry[k] <= max(ur, 1))
@@ -139,3 +146,10 @@ def tt_round(E, s):
         rl = rmax[1:-1] if isinstance(rmax, list) else [rmax]
         if all(r >= maxrank for r in rl):
             E.true('accuracy', bound_ok)
+    if rmax is not None:
+        # a cap binds only where it is reached: if every returned rank stays below its cap, the truncation was decided by eps alone
+        caps = [(kw['rmax'] if rmax == 'sym' else (rmax[k] if isinstance(rmax, list) else rmax)) for k in range(1, d)]
+        reached = False
+        for k in range(1, d):
+            reached = _or(reached, Ry[k] >= caps[k - 1])
+        E.true('accuracy_when_no_cap_is_reached', _or(reached, bound_ok))
